@@ -114,6 +114,11 @@ class C10Engine(Engine):
                     # what every connected client knows just before the interrupted command
                     clients = self.client_view(w, chk)
                     self._all_last = {cid: dict(c.last) for cid, c in w.conns.items()}
+                    # the state as the running server itself sees it (its connection's view)
+                    try:
+                        self._own_view = alpha.read_channel(w.dbs["channel"])
+                    except Exception:
+                        self._own_view = None
                     w._image_hashes = {}
                     w.take_image("pre-step")
                 for ev in S.exec_step(w, st, i):
@@ -305,7 +310,10 @@ class C10Engine(Engine):
                 # yet swept.  The sweep that every start runs at once deletes it before the
                 # client can re-send, whereas the uncrashed command would have revived it.
                 now = wc.wall()
-                if any(m.updated is not None and m.updated <= now - EXPIRY for m in image_state.mailboxes):
+                # (judged on the running server's own view: if only the *image* looks expired,
+                # the server had failed to make a keep-alive stamp durable - not a zone)
+                ref_state = getattr(self, "_own_view", None) or image_state
+                if any(m.updated is not None and m.updated <= now - EXPIRY for m in ref_state.mailboxes):
                     facts["extra"]["resume_skipped_expired_unswept"] = \
                         facts["extra"].get("resume_skipped_expired_unswept", 0) + 1
                     continue
